@@ -1,6 +1,6 @@
 (** C13 - No time-respecting path is missed. *)
 From DynVerif Require Import Base Graph Annotate Paths.
-From DynVerif.proofs Require Import SnapInv PathFacts PathComplete.
+From DynVerif.proofs Require Import SnapInv PathFacts PathComplete PathValid.
 From Coq Require Import Sorting.Sorted.
 
 (** when u has no interaction at start (u not in the graph when start is omitted) the result is empty *)
@@ -56,6 +56,16 @@ Proof.
   split; [apply dag_inner_edges; assumption|apply dag_targets_complete; assumption].
 Qed.
 Print Assumptions C13_dag_complete.
+
+(** EXACT characterisation (soundness of C12 + completeness): for a proper window, a hop sequence whose first hop is
+    not a self-loop of the root is returned IF AND ONLY IF it is a valid path, passes the ping-pong filter and ends
+    in v when v is given: the result equals the brute-force enumeration, up to the known defect below *)
+Theorem C13_exact : forall g u v ids p, StronglySorted Z.lt ids ->
+  (match p with (_, y, _) :: _ => y <> u | [] => True end) ->
+  (In p (all_paths_dag u (dag_of' g u v ids)) <->
+   valid_path g ids u p /\ keep_path p = true /\ (forall v', v = Some v' -> exists a t, last p (0,0,0) = (a, v', t))).
+Proof. exact paths_exact. Qed.
+Print Assumptions C13_exact.
 
 (** finding K-C13-1: a path whose first hop is a self-loop of the root is missed *)
 Theorem C13_complete_refuted : exists g u l,
